@@ -79,7 +79,7 @@ Proof.
 Qed.
 
 Lemma content_op_admitted : forall st u k,
-  match k with KCreateKey | KImportKey _ | KUse _ _ _ => False | _ => True end ->
+  match k with KCreateKey | KImportKey _ | KUse _ _ _ | KAddKeyEmpty => False | _ => True end ->
   admitted (snd (content_op st u k)) = true.
 Proof. intros st u k Hk. destruct k; cbn in *; try contradiction; dm; reflexivity. Qed.
 
@@ -124,6 +124,8 @@ Proof.
     destruct (store_use m), h, (find_session (sessions st) (now st) t); try reflexivity;
       destruct (uses_km m); cbn [andb fst snd] in *; try reflexivity;
       rewrite use_op_admitted in Ha; discriminate.
+  - destruct v; [cbn in Ha; discriminate|].
+    destruct (find_session (sessions st) (now st) t); [cbn in Ha; discriminate|reflexivity].
 Qed.
 
 (* T3: a token without a live session (never issued, closed, expired) is rejected by the repaired code *)
@@ -260,6 +262,7 @@ Proof.
     apply rows_of_in. apply sort_rows_in in H1. apply filter_In in H1. destruct H1 as [H1 _].
     unfold of_type in H1. apply filter_In in H1. tauto.
   - inversion H; subst; split; intros; discriminate.
+  - inversion H; subst; split; intros; discriminate.
 Qed.
 
 (* a token operation returns data only through content_op on the rows of the instance's own profile *)
@@ -289,6 +292,7 @@ Proof.
       | |- context [use_op ?a ?b ?c ?d ?e ?f] =>
           destruct (use_op_cases a b c d e f) as [X|X]; rewrite X; apply Triv; auto 10
       end.
+  - revert H. dm; intro H; inversion H; subst; apply Triv; auto 10.
 Qed.
 
 Lemma filter_filter_weaker : forall (A : Type) (f g : A -> bool) l,
@@ -336,6 +340,7 @@ Proof.
     destruct k.
     all: try (destruct h; cbn [negb]; [|reflexivity]; destruct (find_session _ _ _); [|reflexivity];
               rewrite (content_op_others _ u _ u' Hu); reflexivity).
+    + dm; reflexivity.
     + dm; reflexivity.
     + dm; reflexivity.
     + dm; reflexivity.
